@@ -48,6 +48,12 @@ type WorkerOut struct {
 	Undrainable int            `json:"undrainable"`
 	Samples     []Sample       `json:"samples"`
 	Violations  []ReplayFile   `json:"violations"`
+	// Unreproduced: a rule fired once and did not fire again when the very same tape was re-executed at once in
+	// the same process (3 attempts, 8 for racy runs). The only schedule source the simulator does not own is the
+	// runtime's cooperative preemption of a goroutine that has been on the P for 10 ms of wall time (the OS
+	// descheduled the worker under load); such an execution cannot be replayed and is therefore not reported as a
+	// violation - it is counted and described here.
+	Unreproduced []Unrepro `json:"unreproduced"`
 	Real        []string       `json:"real"`
 	Stub        []string       `json:"stub"`
 	WallS       float64        `json:"wall_s"`
@@ -60,6 +66,30 @@ type Sample struct {
 	Scenario string   `json:"scenario"`
 	Tape     []uint32 `json:"tape"`
 	Log      []string `json:"log"`
+}
+
+type Unrepro struct {
+	Rule     string `json:"rule"`
+	Sig      string `json:"sig"`
+	RunIndex uint64 `json:"run_index"`
+	Racy     bool   `json:"racy"`
+	Msg      string `json:"msg"`
+	Attempts int    `json:"attempts"`
+}
+
+// confirm re-executes the tape of a failing run: a violation is only worth reporting if it can be replayed.
+func confirm(t *testing.T, p *PropDef, res *RunResult, v Violation) (bool, int) {
+	n := 3
+	if res.Racy {
+		n = 8
+	}
+	for i := 1; i <= n; i++ {
+		r := Execute(t, p, NewReplayTape(res.Tape), false)
+		if hasViol(r, v.Rule, v.Sig) != nil || (r.Undrainable != "" && v.Sig == "undrainable-goroutine") {
+			return true, i
+		}
+	}
+	return false, n
 }
 
 func gcNow() {
@@ -144,6 +174,13 @@ func RunRange(t *testing.T, p *PropDef, seed, from, to uint64, statusPath string
 			key := v.Rule + "|" + v.Sig
 			violSeen[key]++
 			if violSeen[key] > 1 { // keep at most two witnesses per (rule, signature) per worker
+				continue
+			}
+			if ok, n := confirm(t, p, res, v); !ok {
+				violSeen[key]--
+				if len(out.Unreproduced) < 16 {
+					out.Unreproduced = append(out.Unreproduced, Unrepro{Rule: v.Rule, Sig: v.Sig, RunIndex: idx, Racy: res.Racy, Msg: v.Msg, Attempts: n})
+				}
 				continue
 			}
 			rf := minimise(t, p, res, v, seed, idx)
